@@ -24,9 +24,9 @@ import (
 // Rs2/Rs3 hold rd/rj/rk/ra (or fd/fj/fk/fa); Imm is the immediate after the manual's
 // sign/zero extension and scaling (a branch offset in bytes, si14<<2 for ldptr ...).
 type Inst struct {
-	Op                 string
+	Op                string
 	Rd, Rs1, Rs2, Rs3 int
-	Imm                int64
+	Imm               int64
 }
 
 // Regs: architectural registers. X[0] is whatever the caller put there; the model reads
